@@ -269,6 +269,9 @@ impl<'tokens> Parser<'tokens> {
     }
 
     pub(crate) fn bump(&mut self) {
+        // the sink skips trivia before every token it adds, so we have to do the same,
+        // otherwise two bumps in a row (`. (`, `. try`, `+ =`) would count whitespace as a token
+        self.skip_trivia();
         self.clear_expected_syntaxes();
         self.events.push(Some(Event::AddToken));
         self.token_idx += 1;
